@@ -1,8 +1,9 @@
 """RARS environment calls (integer registers only), written from the RARS documentation
 ("Supported system calls"), independently of the analyzer's table: number -> (registers the
 environment reads, registers it writes). Calls whose integer signature I am not certain of
-(43 RandFloat, 55 MessageDialog) and the floating-point calls are left out: nothing is judged
-for them."""
+(43 RandFloat) and the floating-point calls are left out of RARS: nothing is judged for them
+there; UNLISTED gives the integer registers the documented floating-point calls touch (the
+analyzer's table leaves them out: "Not supporting floating point yet")."""
 A0, A1, A2, A3 = 10, 11, 12, 13
 RARS = {
     1: ([A0], []),                # PrintInt
@@ -25,7 +26,9 @@ RARS = {
     41: ([A0], [A0]),             # RandInt(id)
     42: ([A0, A1], [A0]),         # RandIntRange(id, bound)
     50: ([A0], [A0]),             # ConfirmDialog
+    51: ([A0], [A0, A1]),         # InputDialogInt(message) -> value, status
     54: ([A0, A1, A2], [A1]),     # InputDialogString(message, buffer, max)
+    55: ([A0, A1], []),           # MessageDialog(message, type)
     56: ([A0, A1], []),           # MessageDialogInt
     57: ([A0], []),               # Close
     59: ([A0, A1], []),           # MessageDialogString
@@ -34,6 +37,17 @@ RARS = {
     64: ([A0, A1, A2], [A0]),     # Write
     93: ([A0], []),               # Exit2
     1024: ([A0, A1], [A0]),       # Open
+}
+
+# documented calls with floating-point operands: integer registers read / written
+UNLISTED = {
+    2: ([], []), 3: ([], []),     # PrintFloat / PrintDouble (fa0)
+    6: ([], []), 7: ([], []),     # ReadFloat / ReadDouble -> fa0
+    44: ([A0], []),               # RandDouble(id) -> fa0
+    52: ([A0], [A1]),             # InputDialogFloat(message) -> fa0, status
+    53: ([A0], [A1]),             # InputDialogDouble(message) -> fa0, status
+    58: ([A0], []),               # MessageDialogFloat(message, fa1)
+    60: ([A0], []),               # MessageDialogDouble(message, fa1)
 }
 
 
